@@ -69,17 +69,18 @@ TH = ('thorough',)
 EX = ('experimental',)
 INSTANCES = [
     # static chunking: real parallel_for -> adjustChunkSizing/computeGranularity -> parallel_for_staticImpl
-    inst('i32_static', 'int32_t', 0, 5, 2, tiers=Q),
-    inst('u64_static', 'uint64_t', 0, 5, 2, tiers=Q, VF_EDGE=24),
-    inst('i8_static', 'int8_t', 0, 5, 2, tiers=Q),
-    inst('i32_static_index', 'int32_t', 0, 4, 2, tiers=Q, VF_API=1, VF_CTX=0),
-    inst('u8_static', 'uint8_t', 0, 6, 3, tiers=TH),
-    inst('i16_static', 'int16_t', 0, 6, 3, tiers=TH),
-    inst('u16_static', 'uint16_t', 0, 6, 3, tiers=TH),
-    inst('u32_static', 'uint32_t', 0, 6, 3, tiers=TH),
-    inst('i64_static', 'int64_t', 0, 6, 3, tiers=TH, VF_EDGE=24),
-    inst('u64_static_wide', 'uint64_t', 0, 6, 3, tiers=TH, VF_EDGE=24),
-    inst('i32_static_wide', 'int32_t', 0, 8, 3, tiers=TH),
+    inst('i32_static', 'int32_t', 0, 4, 2, tiers=Q, timeout=280, thorough={'timeout': 1700}),
+    # the instances below exceed the quick limits on the shared machine (measured: 4.5 min alone for int32 with size <= 8,
+    # N <= 3; > 15 min with 8 solver processes in parallel); thorough runs them with a long timeout
+    inst('i32_static_wide', 'int32_t', 0, 8, 3, tiers=TH, timeout=1700),
+    inst('u64_static', 'uint64_t', 0, 5, 2, tiers=TH, VF_EDGE=24, timeout=1700),
+    inst('i8_static', 'int8_t', 0, 5, 2, tiers=EX, timeout=1700),
+    inst('i32_static_index', 'int32_t', 0, 4, 2, tiers=EX, VF_API=1, VF_CTX=0, timeout=1700),
+    inst('u8_static', 'uint8_t', 0, 6, 3, tiers=EX),
+    inst('i16_static', 'int16_t', 0, 6, 3, tiers=EX),
+    inst('u16_static', 'uint16_t', 0, 6, 3, tiers=EX),
+    inst('u32_static', 'uint32_t', 0, 6, 3, tiers=EX),
+    inst('i64_static', 'int64_t', 0, 6, 3, tiers=EX, VF_EDGE=24),
     # encoded but not finishing (see NOTES.md): run with --tier experimental --only <name>
     inst('i32_adaptive', 'int32_t', 1, 4, 1, tiers=EX, VF_WAIT=1, VF_NLO=1, VF_L3=0, VF_CTX=0, timeout=1800),
     inst('u64_adaptive_hi', 'uint64_t', 1, 4, 1, tiers=EX, VF_WAIT=1, VF_NLO=1, VF_L3=0, VF_CTX=0, VF_HI=1, timeout=1800),
